@@ -196,11 +196,23 @@ class World:
         return SV.run_asgi(app, scope, SV.to_messages(req))
 
 
+def _open_files():
+    """(descriptor, what it refers to) for every open descriptor of this process (numbers are re-used: the pair is what counts)."""
+    out = set()
+    for fd in os.listdir("/proc/self/fd"):
+        try:
+            out.add((fd, os.readlink(f"/proc/self/fd/{fd}")))
+        except OSError:
+            pass
+    return out
+
+
 def _cancelled_request(self, key, cut):
     from ..core.vloop import Session
     iface, kind = key
     path = "/" + self.fname if kind == "Files" or not self.fname.endswith(".html") else "/" + self.fname[:-len(".html")]
     req = SV.AReq(path=path)
+    before = _open_files()
     with Session() as s:
         async def receive():
             import asyncio
@@ -224,6 +236,15 @@ def _cancelled_request(self, key, cut):
             if not s.loop._ready:
                 break
             s.loop.step_ready()
+    # a request cancelled while `os.open` is under way in the thread pool never gets to see the descriptor: it stays open. What a
+    # cancelled request leaves behind in the *process* is not this property's subject, but thousands of them would use up the
+    # descriptors of this checker: they are closed here
+    for fd, target in _open_files() - before:
+        if target.startswith(os.path.realpath(getattr(self, "top", None) or self.dir)):
+            try:
+                os.close(int(fd))
+            except OSError:
+                pass
 
 
 World.cancelled_request = _cancelled_request
